@@ -190,3 +190,12 @@ package rsync
 //@   loop 1 invariant[valid] result != nil && fresh(result) && blockSize > 0 && result.BlockSize == blockSize && len(buffer) == blockSize
 //@   loop 1 invariant[valid] forall k in 0..len(result.Hashes) :: result.Hashes[k] != nil
 //@   loop 1 invariant[valid] eof ==> len(result.Hashes) > 0 && 0 < result.LastBlockSize && result.LastBlockSize < blockSize
+
+// ---------------------------------------------------------------- Transmit
+//
+// Transmit hands each signature to Deltify; its documentation makes the
+// caller responsible for their validity (EnsureValid). The default maximum
+// data operation size is used, so the search buffer must fit for it.
+//@ func Transmit
+//@   requires[sigsvalid] forall k in 0..len(signatures) :: signatures[k] != nil && sigsizes(signatures[k]) && bufferfits(signatures[k], 0)
+//@   requires[sigsvalid] forall k in 0..len(signatures) :: forall j in 0..len(signatures[k].Hashes) :: signatures[k].Hashes[j] != nil
